@@ -5,19 +5,36 @@ import numpy as np
 from common import *
 
 ID = 'C15'
-COQ_FILES = ['Base/Mat.v', 'Base/SumQ.v', 'Base/ListX.v', 'Model/Core.v', 'Proofs/Core.v', 'Properties/C15.v']
+COQ_FILES = ['Base/Mat.v', 'Base/SumQ.v', 'Base/ListX.v', 'Model/Core.v', 'Proofs/Core.v', 'Proofs/CoreFull.v',
+             'Properties/C15.v']
 THEOREMS = ['C15_peel_terminates', 'C15_core_is_feasible', 'C15_core_is_maximal', 'C15_core_matrix_is_restriction',
             'C15_kn_is_size', 'C15_k_nonpositive', 'C15_cores_nested', 'C15_peel_each_once', 'C15_core_spec_unfold',
             'C15_kcore_bu', 'C15_kcore_bd', 'C15_score_wu', 'C15_instances_degrees', 'C15_coreness_spec_unfold',
             'C15_coreness_is_max_k_bu', 'C15_coreness_bu_complete', 'C15_coreness_is_max_k_bd',
-            'C15_coreness_bd_truncated_refuted']
+            'C15_coreness_bd_truncated_refuted',
+            'C15_peel_flag', 'C15_kcoreness_default_path', 'C15_violators_unfold', 'C15_rounds_spec_unfold',
+            'C15_peel_round_is_violators', 'C15_nested_spec_unfold', 'C15_kcore_bu_nested', 'C15_kcore_bd_nested',
+            'C15_score_wu_nested', 'C15_peel_once_spec_unfold', 'C15_kcore_bu_peel', 'C15_kcore_bd_peel',
+            'C15_score_wu_peel', 'C15_kcore_bu_as_called', 'C15_kcore_bd_as_called', 'C15_score_wu_as_called',
+            'C15_coreness_full_unfold', 'C15_kcoreness_bu_full', 'C15_kcoreness_bu_symmetrises',
+            'C15_kcoreness_bu_single_arc_refuted']
 RULE = ('every labelled undirected graph on n<=4 nodes (n<=5 thorough) x every k in 0..n+1 (+ half-integers), every '
         'directed graph on n<=3 (n<=4 thorough) x every k in 0..2n; random graphs n<=9 from the families ER at several '
         'densities, paths, stars, cliques with pendant chains, nested shells, disjoint unions, isolated nodes; weighted '
         'undirected matrices with dyadic weights from a small set (many ties) x every s on a grid holding every strength '
-        'attained in any sub-network met by an independent peeling, the midpoints between them, 0 and max+1; '
+        'attained in any sub-network met by an independent peeling, the midpoints between them, 0 and max+1, and '
+        's = strength -/+ one ulp and -/+ 2^-30 (strictness of <); kcore_bu/kcore_bd/kcoreness on WEIGHTED matrices '
+        '(entries from {1/4,1/2,2,3,5,-1,-3/2}: output values compared, not only the support), all symmetric 3x3 / all 2x2 '
+        'matrices over {0,2,-1/2}; self-loops (nonzero diagonal) for the three core routines; every kcore_b? case is run '
+        'with peel=True (4-tuple) AND through the 2-tuple path (peel=False explicit / argument omitted, alternating); '
+        'float, int and bool dtype; n=0; slices with n in 10..30 (independent min-degree-removal coreness oracle); '
+        'asymmetric input to kcoreness_centrality_bu with a reciprocal pair (oracle = the symmetrised graph); '
         'non-trivial = at least one node is peeled or the core is non-empty with k>0; distinct by hash of (function, matrix, k)')
-ASSUMES = ['weights are small dyadic rationals so every strength sum is exact in binary64',
+ASSUMES = ['weights are small dyadic rationals so every strength sum is exact in binary64 (s within one ulp of a strength is '
+           'therefore compared exactly)',
+           'directed input WITHOUT a reciprocal pair to kcoreness_centrality_bu (np.any(CIJund > 1) does not fire, in-degrees are '
+           'used: C15_kcoreness_bu_single_arc_refuted) is outside the domain of the property (binary UNDIRECTED graphs): '
+           'correspondence only, counted as kcoreness_centrality_bu:observation:asym-no-reciprocal',
            'k = 0 (and s <= 0): the code returns the input and counts the NON-ISOLATED nodes as kn; the oracle states exactly that',
            'peelorder lists the nodes zeroed explicitly; a node whose degree drops to 0 because all its neighbours were '
            'peeled is neither listed nor in the core (as in the MATLAB original) - the oracle checks listed/core/isolated partition the node set']
@@ -70,6 +87,27 @@ def npm(W, dtype=float):
 
 def sW(W):
     return [[str(x) for x in row] for row in W]
+
+
+def bz_coreness(kind, W):
+    """independent coreness (Batagelj-Zaversnik / Matula-Beck): repeatedly delete a node of minimum current degree;
+    coreness = running maximum of the degree at deletion. Used for n > 9, cross-checked against subset enumeration."""
+    n = len(W)
+    S = set(range(n))
+    cor = [0] * n
+    cur = 0
+    d = {j: degin(kind, W, S, j) for j in S}
+    while S:
+        v = min(S, key=lambda j: (d[j], j))
+        cur = max(cur, d[v])
+        cor[v] = cur
+        S.remove(v)
+        for u in S:
+            if kind == 'bu':
+                d[u] -= (1 if W[v][u] != 0 else 0)
+            else:
+                d[u] -= (1 if W[v][u] != 0 else 0) + (1 if W[u][v] != 0 else 0)
+    return cor
 
 
 # ---------------------------------------------------------------- generators
@@ -156,6 +194,49 @@ def rand_wu(r, n):
     return W, fam
 
 
+
+WV2 = [F(1, 4), F(1, 2), F(2), F(3), F(5), F(-1), F(-3, 2)]      # non-0/1 entries for kcore_bu / kcore_bd / kcoreness
+
+
+def reweight(r, A, sym, vals, pneg=True):
+    """keep the support of A, replace every 1 by a value from vals (symmetric when sym)"""
+    n = len(A)
+    vs = [v for v in vals if pneg or v > 0]
+    W = [[F(0)] * n for _ in range(n)]
+    for i in range(n):
+        for j in range(n):
+            if A[i][j] != 0 and (not sym or i <= j):
+                W[i][j] = vs[int(r.randint(0, len(vs)))]
+                if sym:
+                    W[j][i] = W[i][j]
+    return W
+
+
+def mats_over(n, vals, sym):
+    """all n x n matrices with zero diagonal and off-diagonal entries from vals (symmetric when sym)"""
+    cells = [(i, j) for i in range(n) for j in range(n) if (i < j if sym else i != j)]
+    for combo in itertools.product(vals, repeat=len(cells)):
+        W = [[F(0)] * n for _ in range(n)]
+        for (i, j), v in zip(cells, combo):
+            W[i][j] = v
+            if sym:
+                W[j][i] = v
+        yield W
+
+
+def integral(W):
+    return all(x.denominator == 1 for row in W for x in row)
+
+
+def binary(W):
+    return all(x in (0, 1) for row in W for x in row)
+
+
+def is_sym(W):
+    n = len(W)
+    return all(W[i][j] == W[j][i] for i in range(n) for j in range(n))
+
+
 # ---------------------------------------------------------------- the check
 FN = {'bu': 'kcore_bu', 'bd': 'kcore_bd', 'wu': 'score_wu'}
 WHICH = {'bu': 0, 'bd': 1, 'wu': 2}
@@ -165,8 +246,16 @@ def run(ctx):
     import bct
     impl = {'bu': bct.kcore_bu, 'bd': bct.kcore_bd, 'wu': bct.score_wu}
     lines, pend = [], []
+    ocache = {}
+    toggle = [0]
 
     def oracle_core(kind, W, k, exhaustive):
+        key = (kind, tuple(tuple(r) for r in W), k)
+        if key not in ocache:
+            ocache[key] = oracle_core0(kind, W, k, exhaustive)
+        return ocache[key]
+
+    def oracle_core0(kind, W, k, exhaustive):
         n = len(W)
         if k <= 0:
             return None
@@ -181,17 +270,29 @@ def run(ctx):
         S, _ = seq_peel(kind, W, k)
         return {j for j in S if degin(kind, W, S, j) > 0}
 
-    def one_core(kind, W, k, exhaustive, fam, direct=True):
-        """one call of kcore_bu / kcore_bd / score_wu; returns the core node set reported by the implementation"""
+    def one_core(kind, W, k, exhaustive, fam, direct=True, mode='peel', dtype='float'):
+        """one call of kcore_bu / kcore_bd / score_wu; returns the core node set reported by the implementation.
+        mode: 'peel' = f(A, k, True) (4-tuple) | 'false' = f(A, k, peel=False) | 'default' = f(A, k) (2-tuple)"""
         fn = FN[kind]
         n = len(W)
-        A = npm(W)
+        A = npm(W, {'float': float, 'int': int, 'bool': bool}[dtype])
         A0 = A.copy()
+        peel = (kind != 'wu') and mode == 'peel'
         case = {'fn': fn, 'W': sW(W), 'k': str(k)}
+        if kind != 'wu':
+            case['call'] = {'peel': 'f(W, k, True)', 'false': 'f(W, k, peel=False)', 'default': 'f(W, k)'}[mode]
+        if dtype != 'float':
+            case['dtype'] = dtype
         kk = int(k) if (F(k).denominator == 1 and kind != 'wu') else float(k)
-        peel = kind != 'wu'
+        if F(kk) != F(k):
+            raise RuntimeError('k=%s is not a binary64 number' % (k,))
         try:
-            out = call(impl[kind], A, kk, True) if peel else call(impl[kind], A, kk)
+            if kind == 'wu' or mode == 'default':
+                out = call(impl[kind], A, kk)
+            elif mode == 'false':
+                out = call(impl[kind], A, kk, peel=False)
+            else:
+                out = call(impl[kind], A, kk, True)
         except Timeout:
             ctx.fail(fn + ':terminates', 'no result within 5 s', case)
             ctx.case(case, nontrivial=True)
@@ -200,10 +301,21 @@ def run(ctx):
             ctx.fail(fn + ':raises', 'raised %r' % (e,), case)
             ctx.case(case, nontrivial=True)
             return None
+        if not ctx.check(isinstance(out, tuple) and len(out) == (4 if peel else 2), fn + ':return-shape',
+                         'expected a %d-tuple' % (4 if peel else 2), case):
+            ctx.case(case, nontrivial=True)
+            return None
         C, kn = out[0], int(out[1])
+        if not ctx.check(isinstance(C, np.ndarray) and C.shape == (n, n), fn + ':return-shape', 'matrix of the wrong shape', case):
+            ctx.case(case, nontrivial=True)
+            return None
         po = [[int(x) for x in a] for a in out[2]] if peel else []
         pl = [[float(x) for x in a] for a in out[3]] if peel else []
-        ctx.count('%s:n=%d' % (fn, n)); ctx.count('%s:family:%s' % (fn, fam))
+        ctx.count('%s:n=%d' % (fn, n) if n <= 9 else '%s:n=10..30' % fn); ctx.count('%s:family:%s' % (fn, fam))
+        if kind != 'wu':
+            ctx.count('%s:call:%s' % (fn, mode))
+        if dtype != 'float':
+            ctx.count('%s:dtype:%s' % (fn, dtype))
         Cl = [[F(float(C[i, j])) for j in range(n)] for i in range(n)]
         all_n = set(range(n))
         coreset = {j for j in range(n) if degin(kind, Cl, all_n, j) > 0}
@@ -218,7 +330,7 @@ def run(ctx):
             else:
                 ctx.check(Cl == restrict(W, S), fn + ':core',
                           'output is not the input restricted to the largest node set with all inside-degrees >= k '
-                          '(oracle core %s, implementation keeps %s)' % (sorted(S), sorted(coreset)), case)
+                          '(oracle core %s, implementation keeps %s; entries are compared by VALUE)' % (sorted(S), sorted(coreset)), case)
                 ctx.check(kn == len(S), fn + ':size', 'kn=%d but the core has %d nodes' % (kn, len(S)), case)
                 ctx.check(all(degin(kind, Cl, all_n, j) >= k for j in coreset), fn + ':feasible',
                           'a node keeps a positive degree below k inside the returned sub-network', case)
@@ -241,10 +353,22 @@ def run(ctx):
                     want = sorted(j for j in alive if 0 < degin(kind, W, alive, j) < k)
                     ok = ok and (a == want)
                     alive -= set(a)
+                ok = ok and not [j for j in alive if 0 < degin(kind, W, alive, j) < k]
                 ctx.check(ok, fn + ':peel-rounds', 'a peel round is not the set of nodes with 0<deg<k at that time', case)
-        lines.append('core %d %s %s' % (WHICH[kind], enc_mat(W, enc_q), enc_q(F(k))))
+        lines.append('core %d %s %s %d' % (WHICH[kind], enc_mat(W, enc_q), enc_q(F(k)), 1 if peel else 0))
         pend.append(('core', case, (Cl, kn, po, [[int(x) for x in b] for b in pl]), peel))
         return coreset
+
+    def core_both(kind, W, k, exhaustive, fam, direct=True, dtype='float'):
+        """kcore_b?: the 4-tuple call and one of the two 2-tuple calls (alternating); score_wu: its only form"""
+        cs = one_core(kind, W, k, exhaustive, fam, direct, 'peel', dtype)
+        if kind != 'wu':
+            toggle[0] += 1
+            cs2 = one_core(kind, W, k, exhaustive, fam, direct, 'default' if toggle[0] % 2 else 'false', dtype)
+            if cs is not None and cs2 is not None:
+                ctx.check(cs == cs2, FN[kind] + ':return-shape', 'the core differs between peel=True and peel=False',
+                          {'fn': FN[kind], 'W': sW(W), 'k': str(k)})
+        return cs
 
     def ks_for(kind, W):
         n = len(W)
@@ -252,63 +376,99 @@ def run(ctx):
         ks = [F(k) for k in range(0, top + 1)]
         return ks
 
-    def all_k(kind, W, exhaustive, fam, half=False):
-        ks = ks_for(kind, W)
-        if half:
-            ks = sorted(set(ks + [k + F(1, 2) for k in ks[:-1]] + [F(-1)]))
+    def all_k(kind, W, exhaustive, fam, half=False, direct=True, dtype='float', ks=None):
+        if ks is None:
+            ks = ks_for(kind, W)
+            if half:
+                ks = sorted(set(ks + [k + F(1, 2) for k in ks[:-1]] + [F(-1)]))
         prev = None
         for k in ks:
-            cs = one_core(kind, W, k, exhaustive, fam)
+            cs = core_both(kind, W, k, exhaustive, fam, direct, dtype)
             if cs is None:
                 continue
-            if prev is not None:
+            if prev is not None and direct:
                 ctx.check(cs <= prev[1], FN[kind] + ':nested', 'core for k=%s is not inside the core for k=%s' % (k, prev[0]),
                           {'fn': FN[kind], 'W': sW(W), 'k': str(k), 'k_prev': str(prev[0])})
             prev = (k, cs)
 
-    def coreness(kind, W, fam, direct=True):
+    def coreness(kind, W, fam, direct=True, oracle_W=None, dtype='float'):
+        """oracle_W: the graph the coreness is that of (kcoreness_centrality_bu on asymmetric input: the symmetrised graph)"""
         fn = 'kcoreness_centrality_' + kind
         f = bct.kcoreness_centrality_bu if kind == 'bu' else bct.kcoreness_centrality_bd
         n = len(W)
-        A = npm(W)
+        A = npm(W, {'float': float, 'int': int, 'bool': bool}[dtype])
+        A0 = A.copy()
         case = {'fn': fn, 'W': sW(W)}
+        if dtype != 'float':
+            case['dtype'] = dtype
         try:
-            cor, kn = call(f, A)
+            cor, kn = call(f, A, _t=20.0)
         except Exception as e:
             ctx.fail(fn + ':raises', 'raised %r' % (e,), case)
             return
         cor = [int(x) for x in cor]; kn = [int(x) for x in kn]
         ctx.case(case, nontrivial=any(cor))
-        ctx.count('%s:n=%d' % (fn, n)); ctx.count('%s:family:%s' % (fn, fam))
+        ctx.count('%s:n=%d' % (fn, n) if n <= 9 else '%s:n=10..30' % fn); ctx.count('%s:family:%s' % (fn, fam))
         if direct:
-            top = 2 * n + 1
-            cores = {k: (subset_core(kind, W, k) if n <= 6 else oracle_core(kind, W, k, False)) for k in range(1, top + 1)}
-            true = [max([k for k in cores if v in cores[k]] or [0]) for v in range(n)]
-            trunc = [max([k for k in cores if k < n and v in cores[k]] or [0]) for v in range(n)]
+            G = W if oracle_W is None else oracle_W
+            all_n = set(range(n))
+            ctx.check(np.array_equal(A, A0), fn + ':pure', 'the argument was modified', case)
+            if n <= 9:
+                top = 2 * n + 1
+                cores = {k: (subset_core(kind, G, k) if n <= 6 else oracle_core(kind, G, k, False)) for k in range(1, top + 1)}
+                true = [max([k for k in cores if v in cores[k]] or [0]) for v in range(n)]
+                if n <= 6 and true != bz_coreness(kind, G):
+                    raise RuntimeError('the coreness oracles disagree on %r' % (sW(G),))
+            else:
+                true = bz_coreness(kind, G)
+            trunc = [min(c, n - 1) for c in true]
             if cor != true:
                 if kind == 'bd' and cor == trunc:
                     ctx.fail(fn + ':k-range', 'coreness truncated at N-1: true %s, reported %s' % (true, cor), case)
                 else:
                     ctx.fail(fn + ':coreness', 'coreness is not the largest k whose core contains the node: true %s, reported %s' % (true, cor), case)
-            all_n = set(range(n))
-            want_kn = [sum(1 for j in range(n) if degin(kind, W, all_n, j) > 0)] + [len(cores[k]) for k in range(1, n)]
+            want_kn = [sum(1 for j in range(n) if degin(kind, G, all_n, j) > 0)] + [sum(1 for c in true if c >= k) for k in range(1, n)]
             ctx.check(kn == want_kn[:n], fn + ':sizes', 'kn is not the list of core sizes: want %s got %s' % (want_kn[:n], kn), case)
         lines.append('coreness %d %s' % (0 if kind == 'bu' else 1, enc_mat(W, enc_q)))
         pend.append(('coreness', case, (cor, kn), None))
+
+    def symmetrised(W):
+        n = len(W)
+        return [[F(1) if W[i][j] + W[j][i] > 0 else F(0) for j in range(n)] for i in range(n)]
+
+    def pick_dtype(r, W):
+        x = r.rand()
+        if x < 0.25 and integral(W):
+            return 'int'
+        if x < 0.4 and binary(W):
+            return 'bool'
+        return 'float'
 
     # ---- corpus: witnesses kept from the design phase
     K3 = [[F(int(i != j)) for j in range(3)] for i in range(3)]
     coreness('bd', K3, 'corpus')
     P3 = und_from_mask(3, 0b101)      # path 0-1, 1-2 : the middle node becomes isolated for k=2
     all_k('bu', P3, True, 'corpus')
+    # n = 0
+    for kind in ('bu', 'bd', 'wu'):
+        all_k(kind, [], True, 'corpus-n0', ks=[F(0), F(1), F(3, 2)])
+    coreness('bu', [], 'corpus-n0'); coreness('bd', [], 'corpus-n0')
+    # the single arc (C15_kcoreness_bu_single_arc_refuted) and the reciprocal pair, kcoreness_centrality_bu
+    coreness('bu', [[F(0), F(1)], [F(0), F(0)]], 'corpus-asym', direct=False)
+    ctx.count('kcoreness_centrality_bu:observation:asym-no-reciprocal')
+    coreness('bu', [[F(0), F(1)], [F(1), F(0)]], 'corpus')
+    # a weighted triangle with a pendant path (C15_as_called_nonvacuous): values kept, not binarised
+    TW = [[F(x) for x in row] for row in ([0, 3, 1, 0, 0], [3, 0, 1, 0, 0], [1, 1, 0, F(1, 2), 0], [0, 0, F(1, 2), 0, 1], [0, 0, 0, 1, 0])]
+    all_k('bu', TW, True, 'corpus-weighted'); all_k('bd', TW, True, 'corpus-weighted')
+    coreness('bu', TW, 'corpus-weighted'); coreness('bd', TW, 'corpus-weighted')
 
     # ---- exhaustive tiers
     nu = ctx.scale(4, 5)
     for n in range(1, nu + 1):
         for m in range(2 ** (n * (n - 1) // 2)):
             W = und_from_mask(n, m)
-            all_k('bu', W, True, 'exhaustive', half=(n <= 3))
-            coreness('bu', W, 'exhaustive')
+            all_k('bu', W, True, 'exhaustive', half=(n <= 3), dtype=('float', 'int', 'bool')[m % 3] if n == 4 else 'float')
+            coreness('bu', W, 'exhaustive', dtype=('float', 'int', 'bool')[(m + 1) % 3])
             if n <= 4:
                 all_k('bd', W, True, 'exhaustive-sym')
     nd = ctx.scale(3, 4)
@@ -316,8 +476,20 @@ def run(ctx):
         tot = 2 ** (n * (n - 1))
         for m in range(tot):
             W = dir_from_mask(n, m)
-            all_k('bd', W, True, 'exhaustive', half=(n <= 2))
+            all_k('bd', W, True, 'exhaustive', half=(n <= 2), dtype=('float', 'int', 'bool')[m % 3] if n == 3 else 'float')
             coreness('bd', W, 'exhaustive')
+    # weighted input to the binary routines: every symmetric matrix n<=3 / every matrix n<=2 (n<=3 thorough) over {0, 2, -1/2}
+    EV = [F(0), F(2), F(-1, 2)]
+    for n in (2, 3):
+        for W in mats_over(n, EV, True):
+            all_k('bu', W, True, 'exhaustive-weighted', half=(n == 2))
+            all_k('bd', W, True, 'exhaustive-weighted')
+            nn = all(x >= 0 for row in W for x in row)
+            coreness('bu', W, 'exhaustive-weighted', direct=nn)
+    for n in ((2, 3) if ctx.thorough else (2,)):
+        for W in mats_over(n, EV, False):
+            all_k('bd', W, True, 'exhaustive-weighted')
+            coreness('bd', W, 'exhaustive-weighted', direct=all(x >= 0 for row in W for x in row))
     # a slice of the next size in quick
     if not ctx.thorough:
         for m in ctx.rng.sample(range(1024), 60):
@@ -327,37 +499,117 @@ def run(ctx):
             W = dir_from_mask(4, m)
             all_k('bd', W, True, 'exhaustive-slice')
             coreness('bd', W, 'exhaustive-slice')
+        allw = list(mats_over(3, EV, False))
+        for W in ctx.rng.sample(allw, 40):
+            all_k('bd', W, True, 'exhaustive-weighted-slice')
 
     # ---- random tier
     r = ctx.nprng
     for t in range(ctx.scale(60, 600)):
         n = int(r.randint(5, 10))
         W, fam = rand_und(r, n)
-        all_k('bu', W, False, fam)
-        coreness('bu', W, fam)
+        all_k('bu', W, False, fam, dtype=pick_dtype(r, W))
+        coreness('bu', W, fam, dtype=pick_dtype(r, W))
         n = int(r.randint(4, 10))
         W = rand_dir(r, n)
-        all_k('bd', W, False, 'er-dir')
-        coreness('bd', W, 'er-dir')
+        all_k('bd', W, False, 'er-dir', dtype=pick_dtype(r, W))
+        coreness('bd', W, 'er-dir', dtype=pick_dtype(r, W) if r.rand() < 0.5 else 'float')
+    # weighted (non-0/1, fractional, negative) matrices into kcore_bu / kcore_bd / kcoreness_*: values must come back
+    for t in range(ctx.scale(40, 400)):
+        n = int(r.randint(2, 10))
+        A, fam = rand_und(r, n)
+        pneg = bool(t % 2)
+        W = reweight(r, A, True, WV2, pneg)
+        if t % 4 == 3:            # self-loops
+            for i in range(n):
+                if r.rand() < 0.4:
+                    W[i][i] = WV2[int(r.randint(0, len(WV2)))] if pneg else F(2)
+        ks = ks_for('bu', W)
+        ks = sorted(set(ks + [F(3, 2), F(5, 2)])) if n <= 6 else ks
+        all_k('bu', W, False, 'weighted:' + fam, ks=ks, dtype='int' if (integral(W) and r.rand() < 0.3) else 'float')
+        diag0 = all(W[i][i] == 0 for i in range(n))
+        coreness('bu', W, 'weighted:' + fam, direct=(not pneg) and diag0)
+        n = int(r.randint(2, 9))
+        W = reweight(r, rand_dir(r, n), False, WV2, pneg)
+        if t % 4 == 2:
+            for i in range(n):
+                if r.rand() < 0.4:
+                    W[i][i] = F(3)
+        all_k('bd', W, False, 'weighted:er-dir', dtype='int' if (integral(W) and r.rand() < 0.3) else 'float')
+        coreness('bd', W, 'weighted:er-dir', direct=(not pneg) and all(W[i][i] == 0 for i in range(n)))
     # weighted: s on a grid containing every attained strength
     for t in range(ctx.scale(120, 1200)):
         n = int(r.randint(2, 10)) if t % 3 else int(r.randint(2, 6))
         W, fam = rand_wu(r, n)
+        dtype = 'float'
+        if t % 5 == 4:            # nonzero diagonal: strengths_und counts W[j,j] once
+            fam = 'selfloops:' + fam
+            for i in range(n):
+                if r.rand() < 0.5:
+                    W[i][i] = WVALS[int(r.randint(0, len(WVALS)))]
+        elif t % 5 == 3:          # integer weights, int dtype
+            W = [[F(int(x * 4)) for x in row] for row in W]
+            dtype = 'int'
         _, seen = seq_peel('wu', W, F(10 ** 6))          # peels everything: every strength of every sub-network met
         vals = sorted({F(0)} | {v for v in seen if v > 0})
         grid = set(vals) | {(a + b) / 2 for a, b in zip(vals, vals[1:])} | {vals[-1] + 1, F(-1)}
         grid = sorted(grid)
         if len(grid) > 14:
             grid = sorted(set(ctx.rng.sample(grid, 10)) | {vals[-1], vals[-1] + 1})
+        # strictness of `str < s`: s one ulp / 2^-30 below and above an attained strength (all exact in binary64)
+        for v in ctx.rng.sample(vals[1:], min(2, len(vals) - 1)):
+            fv = float(v)
+            grid += [F(float(np.nextafter(fv, np.inf))), F(float(np.nextafter(fv, -np.inf))), v + F(1, 2 ** 30), v - F(1, 2 ** 30)]
+        grid = sorted(set(grid))
         prev = None
         for s in grid:
-            cs = one_core('wu', W, s, False, fam)
+            cs = one_core('wu', W, s, False, fam, dtype=dtype)
             if cs is not None and prev is not None:
                 ctx.check(cs <= prev[1], 'score_wu:nested', 'core for s=%s is not inside the core for s=%s' % (s, prev[0]),
                           {'fn': 'score_wu', 'W': sW(W), 's': str(s), 's_prev': str(prev[0])})
             if cs is not None:
                 prev = (s, cs)
-    # outside the property's domain (correspondence only): self-loops, asymmetric input to the undirected routines
+    # ---- larger graphs, n in 10..30 (a few; k on a sub-grid)
+    for t in range(ctx.scale(5, 40)):
+        n = int(r.randint(10, 31))
+        W, fam = rand_und(r, n)
+        if t % 3 == 0:            # dense: cores beyond k = 10
+            n = int(r.randint(12, 25))
+            p = float(r.choice([0.7, 0.9, 1.0]))
+            W = [[F(0)] * n for _ in range(n)]
+            for i in range(n):
+                for j in range(i + 1, n):
+                    if r.rand() < p:
+                        W[i][j] = W[j][i] = F(1)
+            fam = 'dense'
+        cb = bz_coreness('bu', W)
+        ks = sorted({F(0), F(1), F(2), F(max(cb)), F(max(cb) + 1), F(int(r.randint(1, max(2, max(cb) + 1)))), F(max(cb)) - F(1, 2)})
+        all_k('bu', W, False, 'large:' + fam, ks=ks)
+        coreness('bu', W, 'large:' + fam)
+        n = int(r.randint(10, 21))
+        W = rand_dir(r, n)
+        if t % 3 == 0:
+            W = [[F(1) if (i != j and r.rand() < 0.45) else F(0) for j in range(n)] for i in range(n)]
+        cd = bz_coreness('bd', W)
+        ks = sorted({F(1), F(max(cd)), F(max(cd) + 1), F(int(r.randint(1, max(2, max(cd) + 1))))})
+        all_k('bd', W, False, 'large:er-dir', ks=ks)
+        coreness('bd', W, 'large:er-dir')
+        n = int(r.randint(10, 31))
+        W, fam = rand_wu(r, n)
+        st = sorted({degin('wu', W, set(range(n)), j) for j in range(n)})
+        for s in sorted({st[0], st[len(st) // 2], st[len(st) // 2] + F(1, 2 ** 30), st[-1], st[-1] + 1}):
+            one_core('wu', W, s, False, 'large:' + fam)
+    # ---- asymmetric input to kcoreness_centrality_bu (the reason for its CIJund test)
+    for t in range(ctx.scale(40, 300)):
+        n = int(r.randint(2, 9))
+        W = rand_dir(r, n)
+        if any(W[i][j] != 0 and W[j][i] != 0 for i in range(n) for j in range(i)):
+            coreness('bu', W, 'asym-reciprocal', oracle_W=symmetrised(W))      # C15_kcoreness_bu_symmetrises
+        else:
+            coreness('bu', W, 'asym-no-reciprocal', direct=is_sym(W))
+            if not is_sym(W):
+                ctx.count('kcoreness_centrality_bu:observation:asym-no-reciprocal')
+    # outside the property's domain (correspondence only): self-loops in kcoreness_*, asymmetric input to kcore_bu
     for t in range(ctx.scale(40, 300)):
         n = int(r.randint(2, 7))
         W = rand_dir(r, n)
@@ -365,9 +617,10 @@ def run(ctx):
             for i in range(n):
                 W[i][i] = F(int(r.rand() < 0.4))
         for k in range(0, n + 1):
-            one_core('bu', W, F(k), False, 'malformed', direct=False)
-            one_core('bd', W, F(k), False, 'malformed', direct=False)
+            core_both('bu', W, F(k), False, 'malformed', direct=False)
+            core_both('bd', W, F(k), False, 'malformed', direct=all(W[i][i] == 0 for i in range(n)))
         coreness('bu', W, 'malformed', direct=False)
+        coreness('bd', W, 'malformed', direct=False)
 
     # ---------------- correspondence: extracted Coq model on the same inputs
     res = run_model(ID, lines)
@@ -384,8 +637,10 @@ def run(ctx):
                 ctx.mismatch(case['fn'] + ':matrix', 'core matrices differ', case, sW(M), sW(Cl))
             if m[1] != kn:
                 ctx.mismatch(case['fn'] + ':kn', 'core sizes differ', case, m[1], kn)
-            if peel and (m[2] != po or m[3] != pl):
-                ctx.mismatch(case['fn'] + ':peel', 'peelorder/peellevel differ', case, [m[2], m[3]], [po, pl])
+            if peel and (m[2] is None or m[2][0] != po or m[2][1] != pl):
+                ctx.mismatch(case['fn'] + ':peel', 'peelorder/peellevel differ', case, m[2], [po, pl])
+            if not peel and m[2] is not None:
+                ctx.mismatch(case['fn'] + ':peel', 'the model returns peelorder without the flag', case, m[2], None)
         else:
             cor, kn = got
             if m[0] != cor or m[1] != kn:
